@@ -1,5 +1,6 @@
 import Aplang.Proofs.StateOf
 import Aplang.Model.Run
+import Aplang.Spec.Eval
 /-!
 # Output monotonicity: nothing that was displayed is ever retracted or reordered
 
@@ -154,7 +155,7 @@ theorem tick_out {σ0 σ : St} (h : tick σ0 = some σ) : σ.out = σ0.out := by
   · cases h; rfl
 
 /-- leaves of the sweeps below: a result built from the current state by a primitive -/
-macro "out_leaf" : tactic =>
+macro "om_leaf" : tactic =>
   `(tactic| first
     | exact OutR.ok ⟨[], rfl⟩
     | exact OutR.ok ⟨[_], rfl⟩
@@ -168,18 +169,18 @@ macro "out_leaf" : tactic =>
     | exact OutPure.fuel)
 
 theorem define_out (σ x v) : OutR σ (define σ x v) := by
-  unfold define; split <;> out_leaf
+  unfold define; split <;> om_leaf
 theorem removeVar_out (σ x) : OutR σ (removeVar σ x) := by
-  unfold removeVar; split <;> out_leaf
+  unfold removeVar; split <;> om_leaf
 theorem createNested_out (σ) : OutR σ (createNested σ) := by
-  unfold createNested; split <;> out_leaf
+  unfold createNested; split <;> om_leaf
 theorem flattenNested_out (σ) : OutR σ (flattenNested σ) := by
-  unfold flattenNested; split <;> out_leaf
+  unfold flattenNested; split <;> om_leaf
 theorem popLoop_out (σ) : OutR σ (popLoop σ) := by
-  unfold popLoop; split <;> out_leaf
+  unfold popLoop; split <;> om_leaf
 
 theorem display_pure (σ v) : OutPure σ (display σ v) := by
-  unfold display; split <;> out_leaf
+  unfold display; split <;> om_leaf
 
 theorem displayAll_pure (σ : St) : ∀ vs, OutPure σ (displayAll σ vs)
   | [] => OutPure.ok
@@ -188,23 +189,23 @@ theorem displayAll_pure (σ : St) : ∀ vs, OutPure σ (displayAll σ vs)
     exact OutPure.bind (display_pure σ v) fun a => OutPure.bind (displayAll_pure σ vs) fun b => OutPure.ok
 
 theorem castNum_pure (v sp σ) : OutPure σ (castNum v sp σ) := by
-  unfold castNum castErr; split <;> out_leaf
+  unfold castNum castErr; split <;> om_leaf
 theorem castStr_pure (v sp σ) : OutPure σ (castStr v sp σ) := by
-  unfold castStr castErr; split <;> out_leaf
+  unfold castStr castErr; split <;> om_leaf
 theorem castList_pure (v sp σ) : OutPure σ (castList v sp σ) := by
   unfold castList castErr; split
-  · split <;> out_leaf
-  · out_leaf
+  · split <;> om_leaf
+  · om_leaf
 theorem castMap_pure (v sp σ) : OutPure σ (castMap v sp σ) := by
   unfold castMap castErr; split
-  · split <;> out_leaf
-  · out_leaf
+  · split <;> om_leaf
+  · om_leaf
 theorem castRobot_pure (v sp σ) : OutPure σ (castRobot v sp σ) := by
   unfold castRobot castErr; split
-  · split <;> out_leaf
-  · out_leaf
+  · split <;> om_leaf
+  · om_leaf
 
-macro "pure_leaf" : tactic =>
+macro "om_pure" : tactic =>
   `(tactic| first
     | exact castNum_pure _ _ _
     | exact castStr_pure _ _ _
@@ -215,24 +216,24 @@ macro "pure_leaf" : tactic =>
     | exact displayAll_pure _ _)
 
 theorem fsFlag_out (op path σ) : OutR σ (fsFlag op path σ) := by
-  unfold fsFlag; out_leaf
+  unfold fsFlag; om_leaf
 
-macro "out_step" : tactic =>
+macro "om_step" : tactic =>
   `(tactic| first
-    | out_leaf
+    | om_leaf
     | exact fsFlag_out _ _ _
-    | (refine OutR.bind_pure (by pure_leaf) ?_; intro _)
+    | (refine OutR.bind_pure (by om_pure) ?_; intro _)
     | split)
 
 /-! ## operators, indexing, assignment -/
 
 theorem binop_out (op tok a b σ) : OutR σ (binop op tok a b σ) := by
   unfold binop rtErr
-  repeat' out_step
+  repeat' om_step
 
 theorem unop_out (op tok v σ) : OutR σ (unop op tok v σ) := by
   unfold unop rtErr
-  repeat' out_step
+  repeat' om_step
 
 theorem assignVar_out (name v σ) : OutR σ (assignVar name v σ) := by
   have hd : ∀ σ, OutR σ ((define σ name v).bind fun σ => Res.ok (v, σ)) := fun σ =>
@@ -241,60 +242,60 @@ theorem assignVar_out (name v σ) : OutR σ (assignVar name v σ) := by
   split
   · split
     · split
-      · out_leaf
-      · split <;> out_leaf
+      · om_leaf
+      · split <;> om_leaf
     · exact hd σ
   · exact hd σ
 
 theorem indexRead_out (l k lt lb rb σ) : OutR σ (indexRead l k lt lb rb σ) := by
   unfold indexRead rtErr
-  repeat' out_step
+  repeat' om_step
 
 theorem indexWrite_out (l k v lt lb rb σ) : OutR σ (indexWrite l k v lt lb rb σ) := by
   unfold indexWrite rtErr
-  repeat' out_step
+  repeat' om_step
 
 theorem afterBody_out (b σ) : OutR σ (afterBody b σ) := by
   unfold afterBody
-  repeat' out_step
+  repeat' om_step
 
 theorem forAfter_out (σ) : OutR σ (forAfter σ) := by
   unfold forAfter
-  repeat' out_step
+  repeat' om_step
 
 /-! ## every native procedure -/
 
 theorem moveRobot_out (v s1 σ) : OutR σ (moveRobot v s1 σ) := by
   unfold moveRobot
-  repeat' out_step
+  repeat' om_step
 
 theorem callCore_out (env n args spans σ) : OutR σ (callCore env n args spans σ) := by
   unfold callCore; split
-  all_goals (repeat' out_step)
+  all_goals (repeat' om_step)
 theorem callMath_out (env n args spans σ) : OutR σ (callMath env n args spans σ) := by
   unfold callMath; split
-  all_goals (repeat' out_step)
+  all_goals (repeat' om_step)
 theorem callString_out (env n args spans σ) : OutR σ (callString env n args spans σ) := by
   unfold callString; split
-  all_goals (repeat' out_step)
+  all_goals (repeat' om_step)
 theorem callMap_out (env n args spans σ) : OutR σ (callMap env n args spans σ) := by
   unfold callMap; split
-  all_goals (repeat' out_step)
+  all_goals (repeat' om_step)
 theorem callIo_out (env n args spans σ) : OutR σ (callIo env n args spans σ) := by
   unfold callIo; split
-  all_goals (repeat' out_step)
+  all_goals (repeat' om_step)
 theorem callStyle_out (env n args spans σ) : OutR σ (callStyle env n args spans σ) := by
   unfold callStyle; split
-  all_goals (repeat' out_step)
+  all_goals (repeat' om_step)
 theorem callTime_out (env n args spans σ) : OutR σ (callTime env n args spans σ) := by
   unfold callTime; split
-  all_goals (repeat' out_step)
+  all_goals (repeat' om_step)
 theorem callRobot_out (env n args spans σ) : OutR σ (callRobot env n args spans σ) := by
   unfold callRobot; split
-  all_goals first | exact moveRobot_out _ _ _ | (repeat' out_step)
+  all_goals first | exact moveRobot_out _ _ _ | (repeat' om_step)
 theorem callFs_out (env n args spans σ) : OutR σ (callFs env n args spans σ) := by
   unfold callFs; split
-  all_goals (repeat' out_step)
+  all_goals (repeat' om_step)
 
 /-- every native procedure keeps what was displayed (DISPLAY, DISPLAY_NOLN, DISPLAYF, STYLE, CLEAR_STYLE,
 INPUT and INPUT_PROMPT add an event; all others leave the event list as it is) -/
@@ -310,5 +311,633 @@ theorem callNative_out (env n args spans σ) : OutR σ (callNative env n args sp
   · exact callTime_out env n args spans σ
   · exact callRobot_out env n args spans σ
   · exact callFs_out env n args spans σ
+
+/-! ## IMPORT -/
+
+theorem trimModule_pure : ∀ (toks : List Token) (module acc : FunTable) (σ : St),
+    OutPure σ (trimModule toks module acc σ)
+  | [], _, _, _ => OutPure.ok
+  | t :: ts, module, acc, σ => by
+    unfold trimModule rtErr
+    split
+    · split
+      · exact trimModule_pure ts _ _ σ
+      · om_leaf
+    · om_leaf
+
+/-- IMPORT: a user module runs on the importer's output channel (`moduleState` keeps `out`), and what it
+displayed stays when control is back in the importer (`afterModule` takes the module's `out`) -/
+theorem importStmt_out (cfg : Cfg) (runModule : List Stmt → St → Res St)
+    (hrun : ∀ prog σm, OutR σm (runModule prog σm)) (only modName σ) :
+    OutR σ (importStmt cfg runModule only modName σ) := by
+  unfold importStmt rtErr
+  refine OutR.bind_pure (by split <;> om_leaf) ?_
+  intro name
+  refine OutR.bindP ?_ ?_
+  · split
+    · om_leaf
+    · dsimp only
+      split
+      · om_leaf
+      · split
+        · om_leaf
+        · split
+          · om_leaf
+          · split
+            · refine OutR.bindS (OutR.of_ext (σ1 := moduleState cfg σ _) ⟨[], rfl⟩ (hrun _ _)) ?_
+              intro σm _
+              exact OutR.ok ⟨[], rfl⟩
+            · om_leaf
+            · om_leaf
+            · om_leaf
+  · intro module σ1 _
+    refine OutR.bind_pure (by split <;> first | exact trimModule_pure _ _ _ _ | om_leaf) ?_
+    intro m
+    om_leaf
+
+/-! ## the evaluator, by induction on fuel -/
+
+/-- all eight functions of the evaluator keep the output, at fuel `f` -/
+structure OutAll (cfg : Cfg) (f : Nat) : Prop where
+  expr : ∀ e σ, OutR σ (expr cfg f e σ)
+  exprs : ∀ es σ, OutR σ (exprs cfg f es σ)
+  stmt : ∀ s σ, OutR σ (stmt cfg f s σ)
+  block : ∀ ss σ, OutR σ (block cfg f ss σ)
+  repeatLoop : ∀ k body σ, OutR σ (repeatLoop cfg f k body σ)
+  untilLoop : ∀ c body σ, OutR σ (untilLoop cfg f c body σ)
+  forLoop : ∀ item a i len body σ, OutR σ (forLoop cfg f item a i len body σ)
+  program : ∀ ss σ, OutR σ (program cfg f ss σ)
+
+theorem outAll_zero (cfg : Cfg) : OutAll cfg 0 where
+  expr := by intro e σ; simp only [expr]; exact OutR.fuel
+  exprs := by
+    intro es σ
+    cases es with
+    | nil => simp only [exprs]; om_leaf
+    | cons e es => simp only [exprs]; exact OutR.fuel
+  stmt := by intro s σ; simp only [stmt]; exact OutR.fuel
+  block := by
+    intro ss σ
+    cases ss with
+    | nil => simp only [block]; om_leaf
+    | cons s ss => simp only [block]; split <;> om_leaf
+  repeatLoop := by
+    intro k body σ
+    cases k with
+    | zero => simp only [repeatLoop]; om_leaf
+    | succ k => simp only [repeatLoop]; exact OutR.fuel
+  untilLoop := by intro c body σ; simp only [untilLoop]; exact OutR.fuel
+  forLoop := by intro item a i len body σ; simp only [forLoop]; exact OutR.fuel
+  program := by
+    intro ss σ
+    cases ss with
+    | nil => simp only [program]; om_leaf
+    | cons s ss => simp only [program]; exact OutR.fuel
+
+section step
+variable {cfg : Cfg} {f : Nat} (ih : OutAll cfg f)
+include ih
+
+theorem exprs_om_step (es σ) : OutR σ (exprs cfg (f+1) es σ) := by
+  cases es with
+  | nil => simp only [exprs]; om_leaf
+  | cons e es =>
+    simp only [exprs]
+    apply OutR.bindP (ih.expr e σ)
+    intro v σ1 _
+    apply OutR.bindP (ih.exprs es σ1)
+    intro vs σ2 _
+    om_leaf
+
+theorem expr_om_step (e σ) : OutR σ (expr cfg (f+1) e σ) := by
+  cases e with
+  | grouping e lp rp => simp only [expr]; exact ih.expr e σ
+  | lit v tok => simp only [expr]; om_leaf
+  | binary l op r tok =>
+    simp only [expr]
+    apply OutR.bindP (ih.expr l σ)
+    intro a σ1 _
+    apply OutR.bindP (ih.expr r σ1)
+    intro b σ2 _
+    exact binop_out op tok a b σ2
+  | unary op r tok =>
+    simp only [expr]
+    apply OutR.bindP (ih.expr r σ)
+    intro v σ1 _
+    exact unop_out op tok v σ1
+  | access l lt k lb rb =>
+    simp only [expr]
+    apply OutR.bindP (ih.expr l σ)
+    intro lv σ1 _
+    apply OutR.bindP (ih.expr k σ1)
+    intro kv σ2 _
+    exact indexRead_out lv kv lt lb rb σ2
+  | list items lb rb =>
+    simp only [expr]
+    apply OutR.bindP (ih.exprs items σ)
+    intro vs σ1 _
+    exact OutR.ok (mkList_ext σ1 vs)
+  | var name tok =>
+    simp only [expr, rtErr]
+    split <;> om_leaf
+  | assign name nt value arrow =>
+    simp only [expr]
+    apply OutR.bindP (ih.expr value σ)
+    intro v σ1 _
+    exact assignVar_out name v σ1
+  | set l lt idx lb rb value arrow =>
+    simp only [expr]
+    apply OutR.bindP (ih.expr l σ)
+    intro lv σ1 _
+    apply OutR.bindP (ih.expr idx σ1)
+    intro kv σ2 _
+    apply OutR.bindP (ih.expr value σ2)
+    intro v σ3 _
+    exact indexWrite_out lv kv v lt lb rb σ3
+  | logical l op r tok =>
+    simp only [expr]
+    apply OutR.bindP (ih.expr l σ)
+    intro a σ1 _
+    cases op <;> dsimp only <;> split <;> first | om_leaf | exact ih.expr r σ1
+  | call name args spans tok lp rp =>
+    simp only [expr, rtErr]
+    apply OutR.bindP (ih.exprs args σ)
+    intro vs σ1 _
+    dsimp only
+    split
+    · om_leaf
+    · split
+      · om_leaf
+      · exact callNative_out cfg.chars _ vs spans σ1
+    · split
+      · om_leaf
+      · refine OutR.bindS (OutR.of_ext (σ1 := { σ1 with scopes := _, ret := none }) ⟨[], rfl⟩ (ih.stmt _ _)) ?_
+        intro τ _
+        split <;> om_leaf
+
+theorem block_om_step (ss σ) : OutR σ (block cfg (f+1) ss σ) := by
+  cases ss with
+  | nil => simp only [block]; om_leaf
+  | cons s ss =>
+    simp only [block]
+    split
+    · om_leaf
+    · apply OutR.bindS (ih.stmt s σ)
+      intro σ1 _
+      exact ih.block ss σ1
+
+theorem repeatLoop_om_step (k body σ) : OutR σ (repeatLoop cfg (f+1) k body σ) := by
+  cases k with
+  | zero => simp only [repeatLoop]; om_leaf
+  | succ k =>
+    simp only [repeatLoop]
+    apply OutR.bindS (ih.stmt body σ)
+    intro σ1 _
+    apply OutR.bindP (afterBody_out false σ1)
+    intro nxt σ2 _
+    cases nxt
+    · exact ih.repeatLoop k body σ2
+    · om_leaf
+
+theorem untilLoop_om_step (c body σ) : OutR σ (untilLoop cfg (f+1) c body σ) := by
+  simp only [untilLoop]
+  apply OutR.bindP (ih.expr c σ)
+  intro v σ1 _
+  dsimp only
+  split
+  · om_leaf
+  · apply OutR.bindS (ih.stmt body σ1)
+    intro σ2 _
+    apply OutR.bindP (afterBody_out true σ2)
+    intro nxt σ3 _
+    cases nxt
+    · exact ih.untilLoop c body σ3
+    · om_leaf
+
+theorem forLoop_om_step (item a i len body σ) : OutR σ (forLoop cfg (f+1) item a i len body σ) := by
+  simp only [forLoop]
+  split
+  · om_leaf
+  · split
+    · om_leaf
+    · apply OutR.bindS (define_out σ item _)
+      intro σ1 _
+      apply OutR.bindS (ih.stmt body σ1)
+      intro σ2 _
+      apply OutR.bindP (forAfter_out σ2)
+      intro nxt σ3 _
+      cases nxt
+      · om_leaf
+      · exact ih.forLoop item a (i+1) len body σ3
+      · dsimp only
+        apply OutR.bindP (removeVar_out σ3 item)
+        intro cur σ4 _
+        exact OutR.of_ext (writeBack_ext σ4 a i cur) (ih.forLoop item a (i+1) len body _)
+
+theorem program_om_step (ss σ) : OutR σ (program cfg (f+1) ss σ) := by
+  cases ss with
+  | nil => simp only [program]; om_leaf
+  | cons s ss =>
+    simp only [program]
+    apply OutR.bindS (ih.stmt s σ)
+    intro σ1 _
+    exact ih.program ss σ1
+
+theorem stmt_om_step (s σ0) : OutR σ0 (stmt cfg (f+1) s σ0) := by
+  simp only [stmt]
+  cases ht : tick σ0 with
+  | none => exact OutR.fuel
+  | some σ =>
+    apply OutR.of_ext (OutExt.of_eq (tick_out ht))
+    cases s with
+    | expr e =>
+      dsimp only
+      apply OutR.bindP (ih.expr e σ)
+      intro v σ1 _
+      om_leaf
+    | ifs c t e it et =>
+      dsimp only
+      apply OutR.bindP (ih.expr c σ)
+      intro v σ1 _
+      dsimp only
+      split
+      · exact ih.stmt t σ1
+      · cases e with
+        | none => om_leaf
+        | some e => exact ih.stmt e σ1
+    | repeatTimes count body rt tt ct =>
+      dsimp only
+      apply OutR.bindP (ih.expr count σ)
+      intro v σ1 _
+      cases v with
+      | num n =>
+        dsimp only
+        refine OutR.bindS (OutR.of_ext (σ1 := { σ1 with loops := _ }) ⟨[], rfl⟩ (ih.repeatLoop _ body _)) ?_
+        intro σ2 _
+        exact popLoop_out σ2
+      | null => exact OutR.err ⟨[], rfl⟩
+      | bool b => exact OutR.err ⟨[], rfl⟩
+      | str x => exact OutR.err ⟨[], rfl⟩
+      | list a => exact OutR.err ⟨[], rfl⟩
+      | obj a => exact OutR.err ⟨[], rfl⟩
+    | repeatUntil cond body rt ut =>
+      dsimp only
+      refine OutR.bindS (OutR.of_ext (σ1 := { σ with loops := _ }) ⟨[], rfl⟩ (ih.untilLoop cond body _)) ?_
+      intro σ2 _
+      exact popLoop_out σ2
+    | procDecl name params body exported pt nt =>
+      dsimp only
+      om_leaf
+    | ret tok value =>
+      dsimp only
+      cases value with
+      | none => om_leaf
+      | some e =>
+        dsimp only
+        apply OutR.bindP (ih.expr e σ)
+        intro v σ1 _
+        om_leaf
+    | cont tok =>
+      dsimp only
+      split <;> om_leaf
+    | brk tok =>
+      dsimp only
+      split <;> om_leaf
+    | block lb stmts rb =>
+      dsimp only
+      apply OutR.bindS (createNested_out σ)
+      intro σ1 _
+      apply OutR.bindS (ih.block stmts σ1)
+      intro σ2 _
+      exact flattenNested_out σ2
+    | import_ it mt ft only modName =>
+      dsimp only
+      exact importStmt_out cfg _ (fun prog σm => ih.program prog σm) only modName σ
+    | forEach item itok list body ft et int lt =>
+      dsimp only
+      apply OutR.bindP (ih.expr list σ)
+      intro v σ1 _
+      dsimp only
+      refine OutR.bindP (by cases v <;> first | om_leaf) ?_
+      intro a σ2 _
+      dsimp only
+      apply OutR.bindP (removeVar_out σ2 item)
+      intro cached σ3 _
+      dsimp only
+      refine OutR.bind_pure (by split <;> om_leaf) ?_
+      intro len
+      refine OutR.bindS (OutR.of_ext (σ1 := { σ3 with loops := _ }) ⟨[], rfl⟩ (ih.forLoop item a 0 len body _)) ?_
+      intro σ4 _
+      apply OutR.bindS (popLoop_out σ4)
+      intro σ5 _
+      cases cached with
+      | none => om_leaf
+      | some v => exact define_out σ5 item v
+
+end step
+
+/-- **output monotonicity of the evaluator model**, for every fuel -/
+theorem outAll (cfg : Cfg) : ∀ f, OutAll cfg f
+  | 0 => outAll_zero cfg
+  | f+1 =>
+    have ih := outAll cfg f
+    { expr := expr_om_step ih, exprs := exprs_om_step ih, stmt := stmt_om_step ih, block := block_om_step ih,
+      repeatLoop := repeatLoop_om_step ih, untilLoop := untilLoop_om_step ih, forLoop := forLoop_om_step ih,
+      program := program_om_step ih }
+
+/-! ## the same for the reference semantics `Spec.*` (signals instead of flags) -/
+
+namespace Spec
+
+structure OutAll (cfg : Cfg) (f : Nat) : Prop where
+  expr : ∀ e σ, OutR σ (Spec.expr cfg f e σ)
+  exprs : ∀ es σ, OutR σ (Spec.exprs cfg f es σ)
+  stmt : ∀ s σ, OutR σ (Spec.stmt cfg f s σ)
+  block : ∀ ss σ, OutR σ (Spec.block cfg f ss σ)
+  repeatLoop : ∀ k body σ, OutR σ (Spec.repeatLoop cfg f k body σ)
+  untilLoop : ∀ c body σ, OutR σ (Spec.untilLoop cfg f c body σ)
+  forLoop : ∀ item a i len body σ, OutR σ (Spec.forLoop cfg f item a i len body σ)
+  program : ∀ ss σ, OutR σ (Spec.program cfg f ss σ)
+
+theorem outAll_zero (cfg : Cfg) : OutAll cfg 0 where
+  expr := by intro e σ; simp only [Spec.expr]; exact OutR.fuel
+  exprs := by
+    intro es σ
+    cases es with
+    | nil => simp only [Spec.exprs]; om_leaf
+    | cons e es => simp only [Spec.exprs]; exact OutR.fuel
+  stmt := by intro s σ; simp only [Spec.stmt]; exact OutR.fuel
+  block := by
+    intro ss σ
+    cases ss with
+    | nil => simp only [Spec.block]; om_leaf
+    | cons s ss => simp only [Spec.block]; exact OutR.fuel
+  repeatLoop := by
+    intro k body σ
+    cases k with
+    | zero => simp only [Spec.repeatLoop]; om_leaf
+    | succ k => simp only [Spec.repeatLoop]; exact OutR.fuel
+  untilLoop := by intro c body σ; simp only [Spec.untilLoop]; exact OutR.fuel
+  forLoop := by intro item a i len body σ; simp only [Spec.forLoop]; exact OutR.fuel
+  program := by
+    intro ss σ
+    cases ss with
+    | nil => simp only [Spec.program]; om_leaf
+    | cons s ss => simp only [Spec.program]; exact OutR.fuel
+
+section step
+variable {cfg : Cfg} {f : Nat} (ih : OutAll cfg f)
+include ih
+
+theorem exprs_om_step (es σ) : OutR σ (Spec.exprs cfg (f+1) es σ) := by
+  cases es with
+  | nil => simp only [Spec.exprs]; om_leaf
+  | cons e es =>
+    simp only [Spec.exprs]
+    apply OutR.bindP (ih.expr e σ)
+    intro v σ1 _
+    apply OutR.bindP (ih.exprs es σ1)
+    intro vs σ2 _
+    om_leaf
+
+theorem expr_om_step (e σ) : OutR σ (Spec.expr cfg (f+1) e σ) := by
+  cases e with
+  | grouping e lp rp => simp only [Spec.expr]; exact ih.expr e σ
+  | lit v tok => simp only [Spec.expr]; om_leaf
+  | binary l op r tok =>
+    simp only [Spec.expr]
+    apply OutR.bindP (ih.expr l σ)
+    intro a σ1 _
+    apply OutR.bindP (ih.expr r σ1)
+    intro b σ2 _
+    exact binop_out op tok a b σ2
+  | unary op r tok =>
+    simp only [Spec.expr]
+    apply OutR.bindP (ih.expr r σ)
+    intro v σ1 _
+    exact unop_out op tok v σ1
+  | access l lt k lb rb =>
+    simp only [Spec.expr]
+    apply OutR.bindP (ih.expr l σ)
+    intro lv σ1 _
+    apply OutR.bindP (ih.expr k σ1)
+    intro kv σ2 _
+    exact indexRead_out lv kv lt lb rb σ2
+  | list items lb rb =>
+    simp only [Spec.expr]
+    apply OutR.bindP (ih.exprs items σ)
+    intro vs σ1 _
+    exact OutR.ok (mkList_ext σ1 vs)
+  | var name tok =>
+    simp only [Spec.expr, rtErr]
+    split <;> om_leaf
+  | assign name nt value arrow =>
+    simp only [Spec.expr]
+    apply OutR.bindP (ih.expr value σ)
+    intro v σ1 _
+    exact assignVar_out name v σ1
+  | set l lt idx lb rb value arrow =>
+    simp only [Spec.expr]
+    apply OutR.bindP (ih.expr l σ)
+    intro lv σ1 _
+    apply OutR.bindP (ih.expr idx σ1)
+    intro kv σ2 _
+    apply OutR.bindP (ih.expr value σ2)
+    intro v σ3 _
+    exact indexWrite_out lv kv v lt lb rb σ3
+  | logical l op r tok =>
+    simp only [Spec.expr]
+    apply OutR.bindP (ih.expr l σ)
+    intro a σ1 _
+    cases op <;> dsimp only <;> split <;> first | om_leaf | exact ih.expr r σ1
+  | call name args spans tok lp rp =>
+    simp only [Spec.expr, rtErr]
+    apply OutR.bindP (ih.exprs args σ)
+    intro vs σ1 _
+    dsimp only
+    split
+    · om_leaf
+    · split
+      · om_leaf
+      · exact callNative_out cfg.chars _ vs spans σ1
+    · split
+      · om_leaf
+      · refine OutR.bindP (OutR.of_ext (σ1 := { σ1 with scopes := _ }) ⟨[], rfl⟩ (ih.stmt _ _)) ?_
+        intro sig τ _
+        dsimp only
+        split <;> om_leaf
+
+/-- what the three loops and blocks do with the signal of the body: stop with some signal, or go on -/
+theorem block_om_step (ss σ) : OutR σ (Spec.block cfg (f+1) ss σ) := by
+  cases ss with
+  | nil => simp only [Spec.block]; om_leaf
+  | cons s ss =>
+    simp only [Spec.block]
+    apply OutR.bindP (ih.stmt s σ)
+    intro sig σ1 _
+    cases sig <;> dsimp only <;> first | exact ih.block ss σ1 | om_leaf
+
+theorem repeatLoop_om_step (k body σ) : OutR σ (Spec.repeatLoop cfg (f+1) k body σ) := by
+  cases k with
+  | zero => simp only [Spec.repeatLoop]; om_leaf
+  | succ k =>
+    simp only [Spec.repeatLoop]
+    apply OutR.bindP (ih.stmt body σ)
+    intro sig σ1 _
+    cases sig <;> dsimp only <;> first | exact ih.repeatLoop k body σ1 | om_leaf
+
+theorem untilLoop_om_step (c body σ) : OutR σ (Spec.untilLoop cfg (f+1) c body σ) := by
+  simp only [Spec.untilLoop]
+  apply OutR.bindP (ih.expr c σ)
+  intro v σ1 _
+  dsimp only
+  split
+  · om_leaf
+  · apply OutR.bindP (ih.stmt body σ1)
+    intro sig σ2 _
+    cases sig <;> dsimp only <;> first | exact ih.untilLoop c body σ2 | om_leaf
+
+theorem forLoop_om_step (item a i len body σ) : OutR σ (Spec.forLoop cfg (f+1) item a i len body σ) := by
+  simp only [Spec.forLoop]
+  split
+  · om_leaf
+  · split
+    · om_leaf
+    · apply OutR.bindS (define_out σ item _)
+      intro σ1 _
+      apply OutR.bindP (ih.stmt body σ1)
+      intro sig σ2 _
+      cases sig
+      · dsimp only
+        apply OutR.bindP (removeVar_out σ2 item)
+        intro cur σ3 _
+        exact OutR.of_ext (writeBack_ext σ3 a i cur) (ih.forLoop item a (i+1) len body _)
+      · om_leaf
+      · exact ih.forLoop item a (i+1) len body σ2
+      · om_leaf
+
+theorem program_om_step (ss σ) : OutR σ (Spec.program cfg (f+1) ss σ) := by
+  cases ss with
+  | nil => simp only [Spec.program]; om_leaf
+  | cons s ss =>
+    simp only [Spec.program]
+    apply OutR.bindP (ih.stmt s σ)
+    intro sig σ1 _
+    exact ih.program ss σ1
+
+theorem stmt_om_step (s σ0) : OutR σ0 (Spec.stmt cfg (f+1) s σ0) := by
+  simp only [Spec.stmt]
+  cases ht : tick σ0 with
+  | none => exact OutR.fuel
+  | some σ =>
+    apply OutR.of_ext (OutExt.of_eq (tick_out ht))
+    cases s with
+    | expr e =>
+      dsimp only
+      apply OutR.bindP (ih.expr e σ)
+      intro v σ1 _
+      om_leaf
+    | ifs c t e it et =>
+      dsimp only
+      apply OutR.bindP (ih.expr c σ)
+      intro v σ1 _
+      dsimp only
+      split
+      · exact ih.stmt t σ1
+      · cases e with
+        | none => om_leaf
+        | some e => exact ih.stmt e σ1
+    | repeatTimes count body rt tt ct =>
+      dsimp only
+      apply OutR.bindP (ih.expr count σ)
+      intro v σ1 _
+      cases v with
+      | num n =>
+        dsimp only
+        refine OutR.bindP (OutR.of_ext (σ1 := { σ1 with loops := _ }) ⟨[], rfl⟩ (ih.repeatLoop _ body _)) ?_
+        intro sig σ2 _
+        apply OutR.bindS (popLoop_out σ2)
+        intro σ3 _
+        om_leaf
+      | null => exact OutR.err ⟨[], rfl⟩
+      | bool b => exact OutR.err ⟨[], rfl⟩
+      | str x => exact OutR.err ⟨[], rfl⟩
+      | list a => exact OutR.err ⟨[], rfl⟩
+      | obj a => exact OutR.err ⟨[], rfl⟩
+    | repeatUntil cond body rt ut =>
+      dsimp only
+      refine OutR.bindP (OutR.of_ext (σ1 := { σ with loops := _ }) ⟨[], rfl⟩ (ih.untilLoop cond body _)) ?_
+      intro sig σ2 _
+      apply OutR.bindS (popLoop_out σ2)
+      intro σ3 _
+      om_leaf
+    | procDecl name params body exported pt nt =>
+      dsimp only
+      om_leaf
+    | ret tok value =>
+      dsimp only
+      cases value with
+      | none => om_leaf
+      | some e =>
+        dsimp only
+        apply OutR.bindP (ih.expr e σ)
+        intro v σ1 _
+        om_leaf
+    | cont tok =>
+      dsimp only
+      split <;> om_leaf
+    | brk tok =>
+      dsimp only
+      split <;> om_leaf
+    | block lb stmts rb =>
+      dsimp only
+      apply OutR.bindS (createNested_out σ)
+      intro σ1 _
+      apply OutR.bindP (ih.block stmts σ1)
+      intro sig σ2 _
+      apply OutR.bindS (flattenNested_out σ2)
+      intro σ3 _
+      om_leaf
+    | import_ it mt ft only modName =>
+      dsimp only
+      apply OutR.bindS (importStmt_out cfg _ (fun prog σm => ih.program prog σm) only modName σ)
+      intro σ1 _
+      om_leaf
+    | forEach item itok list body ft et int lt =>
+      dsimp only
+      apply OutR.bindP (ih.expr list σ)
+      intro v σ1 _
+      dsimp only
+      refine OutR.bindP (by cases v <;> first | om_leaf) ?_
+      intro a σ2 _
+      dsimp only
+      apply OutR.bindP (removeVar_out σ2 item)
+      intro cached σ3 _
+      dsimp only
+      refine OutR.bind_pure (by split <;> om_leaf) ?_
+      intro len
+      refine OutR.bindP (OutR.of_ext (σ1 := { σ3 with loops := _ }) ⟨[], rfl⟩ (ih.forLoop item a 0 len body _)) ?_
+      intro sig σ4 _
+      apply OutR.bindS (popLoop_out σ4)
+      intro σ5 _
+      refine OutR.bindS (x := match cached with | some v => define σ5 item v | none => .ok σ5) ?_ ?_
+      · cases cached with
+        | none => om_leaf
+        | some v => exact define_out σ5 item v
+      · intro σ6 _
+        om_leaf
+
+end step
+
+/-- **output monotonicity of the reference semantics**, for every fuel -/
+theorem outAll (cfg : Cfg) : ∀ f, OutAll cfg f
+  | 0 => outAll_zero cfg
+  | f+1 =>
+    have ih := outAll cfg f
+    { expr := expr_om_step ih, exprs := exprs_om_step ih, stmt := stmt_om_step ih, block := block_om_step ih,
+      repeatLoop := repeatLoop_om_step ih, untilLoop := untilLoop_om_step ih, forLoop := forLoop_om_step ih,
+      program := program_om_step ih }
+
+end Spec
 
 end Aplang
